@@ -525,6 +525,7 @@ func c07World(t *rapid.T) *world.World {
 	opt := world.DefaultOptions()
 	opt.MaxServices = 3
 	opt.EmptyAbstract = true
+	opt.IdOnlyNode = true
 	m := world.Generate(t, opt)
 	w := m.Build()
 	w.Store = world.GenerateStore(t, m, world.DefaultStoreOptions())
